@@ -70,6 +70,22 @@ func checkC08(c *Ctx) {
 		}
 		c.Check(okRoot, "C08.R1.registration", "serverBuilder › initHandlerCache › root path registered under the empty key", l.Tree.File, `"" iff .Path == "/"`, "the root path is not registered under the empty key that HandlerFor looks up: the operation at \"/\" is unroutable")
 	}
+	// Serve builds the handler cache before it hands out any handler (including the user's Middleware hook)
+	if l := linearOf(c, ev, "serverBuilder"); l != nil {
+		m := regexp.MustCompile(`\) Serve\(\w+ middleware\.Builder\) http\.Handler \{`).FindStringIndex(l.Text)
+		ok, why := false, "Serve(builder) not found"
+		if m != nil {
+			body := l.Text[m[1]:]
+			if e := strings.Index(body, "\n}"); e >= 0 {
+				body = body[:e]
+			}
+			initAt := regexp.MustCompile(`⟦\.ReceiverName⟧\.Init\(\)`).FindStringIndex(body)
+			retAt := regexp.MustCompile(`\breturn\b`).FindStringIndex(body)
+			ok = initAt != nil && retAt != nil && initAt[0] < retAt[0]
+			why = "Serve() returns a handler before Init() has filled the handler cache: with the Middleware hook set, the router is built on an empty cache and every operation answers 404"
+		}
+		c.Check(ok, "C08.R1.registration", "serverBuilder › Serve › Init() precedes every return", l.Tree.File, "handler cache initialised first", why)
+	}
 	// cleanPath is path.Clean
 	checkFuncMapEntry(c, "C08.R1.registration", gen, "cleanPath", "path.Clean", "handlers are registered under another normalisation than the one the runtime router applies to route patterns (path.Join/Clean)")
 
@@ -474,7 +490,19 @@ func checkRouteClash(c *Ctx, gen *packages.Package) {
 			}
 			return true
 		})
-		if lookup && errRet && cleaned && method {
+		// the clash table spans all operations: the loop is not nested in another loop (per
+		// package / per tag) and the table is declared outside it
+		nested := false
+		ast.Inspect(fd.Body, func(m ast.Node) bool {
+			switch m.(type) {
+			case *ast.RangeStmt, *ast.ForStmt:
+				if m != rs && m.Pos() < rs.Pos() && m.End() > rs.End() {
+					nested = true
+				}
+			}
+			return true
+		})
+		if lookup && errRet && cleaned && method && !nested {
 			found, pos = true, rs.Pos()
 		}
 		return true
